@@ -65,6 +65,11 @@ class Ctx:
         return self.tier == "thorough"
 
 
+def ckey(c):
+    """ledger key of a contract: several contracts may instantiate one function (e.g. per arity)"""
+    return c.target + ("#" + c.instance if getattr(c, "instance", None) else "")
+
+
 class PUnit:
     """contracts verified by pyvc"""
     tier = "P"
@@ -83,7 +88,7 @@ class PUnit:
             fn = {"function": c.target, "sha256": rep.sha, "paths": rep.paths, "inlined": getattr(rep, "inlined", []),
                   "obligations": 0, "discharged": 0, "kinds": {}}
             res.functions.append(fn)
-            led = ledger.lookup(ctx.pid, c.target)
+            led = ledger.lookup(ctx.pid, ckey(c))
             try:
                 modsha = ledger.module_sha(source.load(c.module), c.qual, list(getattr(rep, "inlined", [])) + list(c.inline_callees))
             except Exception:
@@ -131,7 +136,7 @@ class PUnit:
                 if missing:
                     res.errors.append(f"vacuity guard: {c.target} unchanged since the ledger but obligations {missing[:3]} were not generated")
             if updating:
-                ledger.record(ctx.pid, c.target, rep.sha, modsha, counts, getattr(rep, "inlined", []))
+                ledger.record(ctx.pid, ckey(c), rep.sha, modsha, counts, getattr(rep, "inlined", []))
             if len(res.samples) < 6:
                 for ob in rep.obligations[:2]:
                     res.samples.append({"obligation": ob.oid, "line": ob.line, "kind": ob.kind, "status": ob.status,
